@@ -14,6 +14,10 @@ _ids = itertools.count()
 
 
 def gen_case(rng):
+    if rng.random() < 0.25:
+        t1, t2 = sorted(rng.sample([1, 2, 3, 4, 5], 2))
+        return {'kind': 'lagclock', 'mode': 'respec', 'times': [t1, t2], 'reversed': rng.random() < 0.5,
+                'levels': [rng.choice([50, 7]), 0], 'total': t2 + 3}
     if rng.random() < 0.5:
         return {'kind': 'lagclock', 'mode': 'lag', 'ts': rng.choice([2.5, 2.0, 3.0]),
                 'calls': [[rng.choice([1.0, 1.5, 0.5]), False] for _ in range(rng.choice([2, 3]))] +
@@ -26,7 +30,10 @@ def gen_case(rng):
 def corpus():
     return [{'kind': 'lagclock', 'mode': 'lag', 'ts': 2.5,
              'calls': [[1.0, False], [1.0, False], [1.0, False], [1.5, True], [6.0, True]], 'events': [1.0, 4.2, 6.4]},
-            {'kind': 'lagclock', 'mode': 'refeed', 'ts': 1.0, 'total': 10, 'feeds': [2, 5, 8]}]
+            {'kind': 'lagclock', 'mode': 'refeed', 'ts': 1.0, 'total': 10, 'feeds': [2, 5, 8]},
+            # one timeline specification (dictionary values holding dictionaries) used for two simulations in a row,
+            # the variable being changed in place in between
+            {'kind': 'lagclock', 'mode': 'respec', 'times': [1, 4], 'reversed': True, 'levels': [50, 0], 'total': 7}]
 
 
 def run_impl(case):
@@ -64,6 +71,36 @@ def run_impl(case):
                 clocks.append([forced, float(eng.global_time), float(st['global']['time']),
                                {k: v for k, v in st['vars'].items()}])
             obs['clocks'] = clocks
+        elif case['mode'] == 'respec':
+            import copy
+
+            class Tuner(Process):
+                """config['mode']['level'] += 1 per tick, through the in-place updater for dictionaries"""
+                def ports_schema(self):
+                    return {'cell': {'config': {'_default': {'mode': {'level': 0}, 'tag': 'initial'},
+                                                '_updater': 'dict_value', '_emit': True}}}
+
+                def calculate_timestep(self, states):
+                    return 1.0
+
+                def next_update(self, timestep, states):
+                    return {'cell': {'config': {'mode': {'level': states['cell']['config']['mode']['level'] + 1}}}}
+            events = [(t, {('cell', 'config'): {'mode': {'level': lv}, 'tag': f'ev{i}'}})
+                      for i, (t, lv) in enumerate(zip(case['times'], case['levels']))]
+            if case['reversed']:
+                events.reverse()
+            given = copy.deepcopy(events)
+            runs = []
+            for _ in range(2):
+                tp = TimelineProcess({'time_step': 1.0, 'timeline': events})
+                eng = Engine(processes={'tuner': Tuner(), 'timeline': tp},
+                             topology={'tuner': {'cell': ('cell',)}, 'timeline': {p: (p,) for p in tp.ports()}},
+                             display_info=False, progress_bar=False)
+                eng.update(case['total'])
+                data = eng.emitter.get_data()
+                runs.append([[float(t), data[t]['cell']['config']] for t in sorted(data)])
+            obs['runs'] = runs
+            obs['spec_intact'] = events == given
         else:
             from vivarium.library.schema import array_from
             import numpy as np
@@ -115,6 +152,26 @@ def oracle(case, impl):
         for i, t in enumerate(case['events']):
             if t <= gt - case['ts'] and vars_.get(f'e{i}') != i + 1:
                 return [f'fire-once: the event at {t} has not fired by t={gt} (variable e{i} = {vars_.get(f"e{i}")})']
+        return []
+    if case['mode'] == 'respec':
+        # the tuner (listed first) adds one per tick; an event due at t is applied at the end of the tick starting at t
+        want = []
+        config = {'mode': {'level': 0}, 'tag': 'initial'}
+        evs = sorted(zip(case['times'], case['levels'], range(2)))
+        want.append([0.0, {'mode': {'level': 0}, 'tag': 'initial'}])
+        for start in range(case['total']):
+            config = {'mode': {'level': config['mode']['level'] + 1}, 'tag': config['tag']}
+            for t, lv, i in evs:
+                if t == start:
+                    config = {'mode': {'level': lv}, 'tag': f'ev{i}'}
+            want.append([float(start + 1), config])
+        for n, run in enumerate(impl['runs']):
+            if run != want:
+                bad = next((a, b) for a, b in zip(run, want) if a != b)
+                return [f'sets-given-value: simulation {n + 1} built from the timeline: row {bad[0]}, the events give '
+                        f'{bad[1]}']
+        if not impl['spec_intact']:
+            return ['sets-given-value: the event values handed to TimelineProcess were modified by the simulation']
         return []
     # refeed: an event due at time f is applied at the end of the tick that starts at the first tick boundary >= f
     ts = case['ts']
